@@ -385,10 +385,11 @@ const (
 	opRset
 	opQuit
 	opAuth
+	opMailNull // the null reverse-path (bounces)
 	nOps
 )
 
-var c03OpNames = []string{"MAIL", "MAIL(upper)", "MAIL(bad)", "RCPT(t0)", "RCPT(t1)", "RCPT(both)", "RCPT(rejected)", "RCPT(bad)", "DATA", "DATA(bad header)", "DATA(loop)", "RSET", "QUIT", "AUTH"}
+var c03OpNames = []string{"MAIL", "MAIL(upper)", "MAIL(bad)", "RCPT(t0)", "RCPT(t1)", "RCPT(both)", "RCPT(rejected)", "RCPT(bad)", "DATA", "DATA(bad header)", "DATA(loop)", "RSET", "QUIT", "AUTH", "MAIL(null)"}
 
 const c03Msg = "From: <a@src.example>\r\nSubject: c03\r\n\r\nbody\r\n"
 
@@ -515,7 +516,7 @@ func c03Arg(op int) string {
 // c03Step performs one client command against the Session the way go-smtp does.
 func c03Step(s *Session, m *c03Mirror, lmtp bool, op int) c03StepResult {
 	switch op {
-	case opMailOK, opMailUpper, opMailBad:
+	case opMailOK, opMailUpper, opMailBad, opMailNull:
 		err := s.Mail(c03Arg(op), &smtp.MailOptions{})
 		if err == nil {
 			m.from = true
@@ -613,7 +614,7 @@ func harness_C03_session() {
 	for step := 0; step < k && m.open; step++ {
 		op := nondetInt(fmt.Sprintf("op%d", step), 0, nOps-1)
 		op = verifConcretize(op)
-		if opset == 0 && (op == opMailUpper || op == opRcptBad || op == opDataLoop || op == opAuth || op == opMailBad) {
+		if opset == 0 && (op == opMailUpper || op == opRcptBad || op == opDataLoop || op == opAuth || op == opMailBad || op == opMailNull) {
 			verifStop()
 		}
 		if !authReq && op == opAuth {
@@ -640,7 +641,7 @@ func harness_C03_session() {
 		switch op {
 		case opRset:
 			firedAtTxnStart = c03.fired
-		case opMailOK, opMailUpper, opMailBad:
+		case opMailOK, opMailUpper, opMailBad, opMailNull:
 			if r.err == nil {
 				firedAtTxnStart = firedBefore // failures of this MAIL itself belong to the new transaction
 				badSender = op == opMailBad
@@ -770,7 +771,7 @@ func c03EndOfSession(endp *Endpoint, hist string) {
 	if !verifSymbolic() {
 		ctx, cancel := context.WithTimeout(context.Background(), 300*time.Millisecond)
 		for _, ip := range []net.IP{net.IPv4(10, 0, 0, 1), net.IPv4(127, 0, 0, 1)} {
-			for _, dom := range []string{"src.example", "SRC.example"} {
+			for _, dom := range []string{"src.example", "SRC.example", ""} {
 				if err := endp.limits.TakeMsg(ctx, ip, dom); err != nil {
 					verifLog("permit for", dom, "is still held after the session")
 					verifFail("C03.permit-not-returned")
